@@ -424,14 +424,16 @@ pub fn live_part(rep: &mut crate::Report, thorough: bool, seed: u64) -> u64 {
     let dtls_items = dtls_catalog(thorough);
     let mut cases: Vec<(Item, Stage, Side)> = vec![];
     for it in &sctp {
-        for st in [Stage::DtlsUpSctpDown, Stage::Established, Stage::AfterAbort] {
+        let stages: &[Stage] = if thorough { &[Stage::DtlsUpSctpDown, Stage::Established, Stage::AfterAbort] } else { &[Stage::DtlsUpSctpDown, Stage::Established] };
+        for st in stages.iter().copied() {
             for v in [Side::A, Side::B] {
                 cases.push((it.clone(), st, v));
             }
         }
     }
     for it in &dtls_items {
-        for st in [Stage::PreHandshake, Stage::MidHandshake, Stage::Established] {
+        let stages: &[Stage] = if thorough { &[Stage::PreHandshake, Stage::MidHandshake, Stage::Established] } else { &[Stage::PreHandshake, Stage::Established] };
+        for st in stages.iter().copied() {
             for v in [Side::A, Side::B] {
                 cases.push((it.clone(), st, v));
             }
